@@ -430,6 +430,18 @@ def isSym : Val → Bool
   | .sym _ _ => true
   | _ => false
 
+/-- a value that is scrutinised: a pointer is loaded through (`Sem` method `deref`), anything else is itself -/
+def loadThrough (S : Sem) (ρ : Env) (v : Val) : Option (Val × Env) :=
+  match v with
+  | .ctor c args =>
+    if c == N.ptr then
+      (match S.meth N.deref (.ctor c args) [] with
+       | .ok r _ => some (r, ρ)
+       | .okE r _ ev => some (r, ρ.log ev)
+       | _ => none)
+    else some (v, ρ)
+  | _ => some (v, ρ)
+
 /-! ### the evaluator -/
 
 mutual
@@ -486,7 +498,11 @@ def eval (S : Sem) : Nat → Env → Expr → Res
       | .ok rv ρ1 => evalMeth S fuel ρ1 recv rv m args
       | r => r
     | .mtch s arms => match eval S fuel ρ s with
-      | .ok v ρ' => evalArms S fuel ρ' v arms
+      | .ok v ρ' =>
+        -- `match *p { … }` with `p` a pointer the `Sem` handed out: the load is the `Sem`'s (and is logged)
+        (match loadThrough S ρ' v with
+         | some (v', ρ'') => evalArms S fuel ρ'' v' arms
+         | none => .stuck)
       | r => r
     | .ite c t e => match eval S fuel ρ c with
       | .ok (.bool true) ρ' => eval S fuel ρ' t
